@@ -17,4 +17,16 @@ CHECKS = {
            "output (C02), termination on cyclic inputs."),
   "design_ref": "DESIGN.md §5 C03", "note": _NOTE,
   "technique": "static analysis: predicate ASTs as formulas decided over a finite order-type abstraction; inductive-step check of recursive listings; structural filter normal forms"},
+ "C20": {
+  "text": ("Decides the equality/hash contract on the source of __eq__/__hash__/__lt__ of Feature, Relation, "
+           "Constraint, FeatureModel: (signatures) hash-key fields are a subset of equality fields with "
+           "coarser-or-equal normalisers, conjuncts symmetric and isinstance-guarded, the fields the property "
+           "names are compared, collections order-free; (witness formulas) the method bodies, read as formulas "
+           "over abstract objects with sorting interpreted by the classes' own __lt__, hold on witness pairs "
+           "realising every representation difference of equal objects (identity, permutations of children / "
+           "relations / constraints, constraint names and letter case) and fail on each single-point edit the "
+           "property lists; sort keys invariant under equality. Nothing of C20 is left to runtime except hash "
+           "collisions, which cannot violate it."),
+  "design_ref": "DESIGN.md §5 C20", "note": _NOTE,
+  "technique": "static analysis: field/normaliser signature extraction from __eq__/__hash__ ASTs + formula evaluation of the bodies on abstract witness pairs (sort interpreted via source __lt__)"},
 }
